@@ -316,6 +316,21 @@ func (e *explorer) walk(st *exState, b, pred *ssa.BasicBlock) {
 					} else {
 						next = b.Succs[1]
 					}
+				} else if d, ok := st.decExpr["l:"+cv.expr]; ok && localLoad(in.Cond) {
+					// a field of a local struct read again with no store to it in between
+					if d {
+						next = b.Succs[0]
+					} else {
+						next = b.Succs[1]
+					}
+				} else if d, ok := st.decExpr["v:"+cv.vexpr]; ok && cv.vexpr != "" && fwdLoad(in.Cond) {
+					// the condition is a load forwarded from a store on this path: the same stored value was already
+					// decided (a local struct's field read twice)
+					if d {
+						next = b.Succs[0]
+					} else {
+						next = b.Succs[1]
+					}
 				} else if d, ok := st.decExpr[cv.expr]; ok && e.pureMemo && pureCond(in.Cond, 0) {
 					if d {
 						next = b.Succs[0]
@@ -328,15 +343,38 @@ func (e *explorer) walk(st *exState, b, pred *ssa.BasicBlock) {
 					if pm && st.decExpr == nil {
 						st.decExpr = map[string]bool{}
 					}
+					fw := cv.vexpr != "" && fwdLoad(in.Cond)
+					ll := localLoad(in.Cond)
+					if (fw || ll) && st.decExpr == nil {
+						st.decExpr = map[string]bool{}
+					}
+					lkey := "l:" + strings.TrimLeft(cv.expr, "!")
+					if ll {
+						neg := strings.Count(cv.expr[:len(cv.expr)-len(strings.TrimLeft(cv.expr, "!"))], "!")%2 == 1
+						_ = neg
+					}
 					st.decided[in.Cond] = false
 					if pm {
 						st.decExpr[cv.expr] = false
+					}
+					if fw {
+						st.decExpr["v:"+cv.vexpr] = false
+					}
+					if ll {
+						st.decExpr["l:"+cv.expr] = false
 					}
 					st2 := st.clone()
 					st.decided[in.Cond] = true
 					if pm {
 						st.decExpr[cv.expr] = true
 					}
+					if fw {
+						st.decExpr["v:"+cv.vexpr] = true
+					}
+					if ll {
+						st.decExpr["l:"+cv.expr] = true
+					}
+					_ = lkey
 					ce, neg := cv.expr, false
 					for strings.HasPrefix(ce, "!") { // a negated condition is the condition, not taken
 						ce, neg = ce[1:], !neg
@@ -392,6 +430,10 @@ func (e *explorer) walk(st *exState, b, pred *ssa.BasicBlock) {
 				st.po.seq = append(st.po.seq, -len(st.po.stores))
 				st.mem[sr.addr] = sr.val
 				delete(st.dead, sr.addr)
+				if st.decExpr != nil {
+					delete(st.decExpr, "l:"+sr.addr)
+					delete(st.decExpr, "l:!"+sr.addr)
+				}
 			case ssa.CallInstruction:
 				if g := in.Common().StaticCallee(); g != nil && len(st.frames) < 2 && e.c.freshHelper(g) {
 					// a helper the reference tree does not know (code extracted by the change under analysis) is read
@@ -993,10 +1035,36 @@ func (e *explorer) cn(name string) string {
 
 // canonParams builds the renaming for f: its parameters (receiver first) get the given role names by position.
 func canonParams(f *ssa.Function, roles ...string) map[string]string {
+	// a parameter that already carries a role's name keeps it wherever it stands (parameters reordered, a receiver
+	// dropped when a method became a function); the others take the remaining roles in order
 	m := map[string]string{}
-	for i, p := range f.Params {
-		if i < len(roles) && roles[i] != "" && p.Name() != roles[i] {
-			m[p.Name()] = roles[i]
+	usedRole := map[string]bool{}
+	named := map[*ssa.Parameter]bool{}
+	for _, p := range f.Params {
+		for _, r := range roles {
+			if r != "" && p.Name() == r && !usedRole[r] {
+				usedRole[r] = true
+				named[p] = true
+				break
+			}
+		}
+	}
+	var rest []string
+	for _, r := range roles {
+		if !usedRole[r] {
+			rest = append(rest, r)
+		}
+	}
+	k := 0
+	for _, p := range f.Params {
+		if named[p] {
+			continue
+		}
+		if k < len(rest) {
+			if rest[k] != "" && p.Name() != rest[k] {
+				m[p.Name()] = rest[k]
+			}
+			k++
 		}
 	}
 	return m
@@ -1154,4 +1222,62 @@ func (c *Ctx) deinline1(expr string) string {
 		}
 	}
 	return expr
+}
+
+// param returns f's parameter that plays a role: the one carrying the role's name, otherwise the one at the
+// position the role had on the reference tree (nil when the function has neither).
+func param(f *ssa.Function, name string, pos int) *ssa.Parameter {
+	for _, p := range f.Params {
+		if p.Name() == name {
+			return p
+		}
+	}
+	if pos < len(f.Params) {
+		return f.Params[pos]
+	}
+	return nil
+}
+
+// fwdLoad: the condition is (a negation of) a plain load.
+func fwdLoad(v ssa.Value) bool {
+	for {
+		u, ok := v.(*ssa.UnOp)
+		if !ok {
+			return false
+		}
+		if u.Op == token.MUL {
+			return true
+		}
+		if u.Op != token.NOT {
+			return false
+		}
+		v = u.X
+	}
+}
+
+// localLoad: the condition is (a negation of) a load of a field of a struct held in a local variable.
+func localLoad(v ssa.Value) bool {
+	for {
+		u, ok := v.(*ssa.UnOp)
+		if !ok {
+			return false
+		}
+		if u.Op == token.NOT {
+			v = u.X
+			continue
+		}
+		if u.Op != token.MUL {
+			return false
+		}
+		a := u.X
+		for {
+			fa, ok := a.(*ssa.FieldAddr)
+			if !ok {
+				break
+			}
+			a = fa.X
+		}
+		al, ok := a.(*ssa.Alloc)
+		return ok && !al.Heap && a != u.X
+	}
 }
